@@ -11,7 +11,7 @@
 usage: gen_objfilter.py <repo> <out.lean> [<workdir>]
 Writes the file only when its content changes.
 """
-import sys, os, json
+import sys, os, json, re
 sys.path.insert(0, os.path.dirname(__file__))
 from tr_cint_c12 import *
 
@@ -30,6 +30,164 @@ void use2(NLPB &b, const mp::NLHeader &h, mp::NumericExpr e) { b.OnHeader(h); b.
 int use3(H &h, const mp::NLHeader &hd) { h.OnHeader(hd); h.notify_obj_added(); return h.objno() + h.multiobj(); }
 }
 '''
+
+TU_SOLVER = r'''
+#define NDEBUG 1
+#define MP_DATE 20240320
+#define MP_SYSINFO "Linux x86_64"
+#define MP_USE_ATOMIC 1
+#define MP_USE_HASH 1
+#define MP_USE_UNIQUE_PTR 1
+#include "%s/src/solver.cc"
+'''
+
+TU_MM = r'''
+#define NDEBUG 1
+#define MP_DATE 20240320
+#include "mp/model-mgr-with-std-pb.hpp"
+'''
+
+TU_READER = r'''
+#define NDEBUG 1
+#define MP_DATE 20240320
+#include "mp/nl-reader.h"
+#include "mp/problem.h"
+#include "mp/solver-io.h"
+namespace c12tu {
+typedef mp::internal::NLProblemBuilder<mp::Problem> NLPB;
+typedef mp::internal::SolverNLHandlerImpl<mp::BasicSolver, mp::Problem, NLPB> H;
+void use4(H &h) { mp::ReadNLString(mp::NLStringRef("x"), h, "n", 0); }   // instantiates NLReader<Text/BinaryReader, H>
+}
+'''
+
+# patterns (uninstantiated template bodies) are enough for step skeletons of these
+TU_FLAT = r'''
+#define NDEBUG 1
+#define MP_DATE 20240320
+#include "mp/flat/problem_flattener.h"
+#include "mp/flat/converter_model.h"
+#include "mp/sol.h"
+'''
+
+ABSTRACT = {('BasicProblem', 'num_objs'), ('BasicProblem', 'num_cons')}
+READ_CALLS = ('ReadUInt',)                       # values read from the file: abstract inputs r_<variable>
+SKIP_IN_CASE = ('ReadTillEndOfLine', 'ReadNumericExpr')   # statements of `case 'O'` without influence on guard/slot
+
+
+def find_nodes(n, pred, acc=None):
+    acc = [] if acc is None else acc
+    if isinstance(n, dict):
+        if pred(n):
+            acc.append(n)
+        for c in n.get('inner', []):
+            find_nodes(c, pred, acc)
+    return acc
+
+
+def case_of(read_decl, ch):
+    """the CaseStmt for character `ch` in NLReader::Read(Reader*)"""
+    def is_case(n):
+        if n.get('kind') != 'CaseStmt':
+            return False
+        lit = n['inner'][0]
+        while lit.get('kind') in ('ConstantExpr', 'ImplicitCastExpr'):
+            lit = lit['inner'][0]
+        return lit.get('kind') == 'CharacterLiteral' and lit.get('value') == ord(ch)
+    cs = find_nodes(read_decl, is_case)
+    if len(cs) != 1:
+        raise TranslateError("%d `case '%s'` in NLReader::Read" % (len(cs), ch))
+    return cs[0]
+
+
+def block_fn(tr, decl, name, cls, stmts, want):
+    """translate a block of statements of `decl` into an integer definition: integer locals initialised by a READ_CALLS
+    call become inputs r_<name>; want = ('cond',) -> the condition of the first `if`;
+    ('arg', callee, i) -> argument i of the first call of `callee` (guarded or returned)"""
+    f = FnX(tr, decl, name, cls)
+    bind_params(f, decl)
+    for s in stmts:
+        s0 = strip(s)
+        k = s0.get('kind')
+        if k == 'DeclStmt':
+            d = s0['inner'][0]
+            init = [c for c in d.get('inner', []) if isinstance(c, dict) and 'kind' in c]
+            ini = strip(init[-1]) if init else {}
+            callee = strip(ini['inner'][0]) if ini.get('kind') == 'CXXMemberCallExpr' else {}
+            if callee.get('name') in READ_CALLS:
+                cty(qual(d))
+                f.vars[d['id']] = f.extra('r_' + d['name'])
+                continue
+            if callee.get('name') in SKIP_IN_CASE:
+                continue
+            if d['type']['qualType'].rstrip().endswith('&') and f.is_object(init[-1]):
+                f.alias[d['id']] = init[-1]
+                continue
+            raise TranslateError('%s: unsupported declaration of %s' % (name, d.get('name')))
+        if k == 'CXXMemberCallExpr' and strip(s0['inner'][0]).get('name') in SKIP_IN_CASE:
+            continue
+        call = None
+        if k == 'IfStmt':
+            if want[0] == 'cond':
+                kind, e = f.expr(s0['inner'][0])
+                term = e if kind == 'm' else '(Outcome.ret %s)' % e
+                break
+            call = strip(s0['inner'][1])
+        elif k == 'ReturnStmt':
+            call = strip(s0['inner'][0])
+        if call is not None and want[0] == 'arg' and call.get('kind') == 'CXXMemberCallExpr' and strip(call['inner'][0]).get('name') == want[1]:
+            kind, e = f.expr(call['inner'][1 + want[2]])
+            term = e if kind == 'm' else '(Outcome.ret %s)' % e
+            break
+        if k == 'BreakStmt':
+            continue
+        raise TranslateError('%s: unsupported statement %s' % (name, k))
+    else:
+        raise TranslateError('%s: wanted %s not found' % (name, want))
+    params = []
+    for c in decl.get('inner', []):
+        if c.get('kind') == 'ParmVarDecl' and c.get('id') in f.vars:
+            params.append(f.vars[c['id']])
+    allp = [p for p in params + f.extras if re.search(r'\b%s\b' % re.escape(p), term)]      # inputs the result depends on
+    return 'def %s %s : Outcome Int :=\n  %s\n' % (name, ' '.join('(%s : Int)' % p for p in allp), term), allp
+
+
+def block_fn_with_params(tr, decl, name, cls, stmts, want):
+    """block_fn with the integer parameters of `decl` bound"""
+    global _bind_decl
+    _bind_decl = decl
+    return block_fn(tr, decl, name, cls, stmts, want)
+
+
+def same_over_specs(tr, idx, cls, meth, name, builder, pick=None):
+    """translate `cls::meth` in every NLReader specialization whose handler is the solver's NL handler (text, binary,
+    byte-swapped binary reader); they must all yield the same definition"""
+    decls = idx.method(cls, meth, ctx_has='SolverNLHandlerImpl', ctx_not='VarBoundHandler')
+    if pick:
+        decls = [d for d in decls if pick(d)]
+    if not isinstance(decls, list) or not decls:
+        raise TranslateError('no instantiation of %s::%s for the solver NL handler' % (cls, meth))
+    out = {}
+    for d in decls:
+        for c in d.get('inner', []):          # bind integer parameters
+            pass
+        text, params = builder(d)
+        out[text] = params
+    if len(out) != 1:
+        raise TranslateError('%s::%s differs between reader specializations' % (cls, meth))
+    text, params = list(out.items())[0]
+    tr.order.append((name, text, params))
+    return len(decls)
+
+
+def bind_params(f, decl):
+    for c in decl.get('inner', []):
+        if c.get('kind') == 'ParmVarDecl':
+            try:
+                cty(qual(c))
+                f.vars[c['id']] = 'p_%s' % c.get('name', 'arg')
+            except TranslateError:
+                pass
+
 
 VIRTUALS = {('NLProblemBuilder', 'objno'), ('NLProblemBuilder', 'multiobj'), ('NLProblemBuilder', 'notify_obj_added')}
 
@@ -85,6 +243,126 @@ def main(repo, out, work):
              ('skel_NLProblemBuilder_OnObj', skeleton(body_of(idx.method('NLProblemBuilder', 'OnObj')))),
              ('skel_NLProblemBuilder_OnLinearObjExpr', skeleton(body_of(idx.method('NLProblemBuilder', 'OnLinearObjExpr')))),
              ('skel_SolverNLHandler_notify_obj_added', skeleton(body_of(idx.method('SolverNLHandlerImpl', 'notify_obj_added'))))]
+    # ---------------------------------------------------------------- round 4 additions
+    tr.need_method('BasicSolver', 'GetObjNo')
+    # (1) the obj:multi option setter: struct BoolOption local to BasicSolver::InitMetaInfoAndOptions (src/solver.cc)
+    tu2 = os.path.join(work, 'objfilter_solver.cc')
+    open(tu2, 'w').write(TU_SOLVER % repo)
+    idx.add_docs(clang_dump(tu2, 'BoolOption', [os.path.join(repo, 'include'), os.path.join(repo, 'src')]))
+    tr.need_method('BoolOption', 'SetValue', lean_name='BoolOption_SetValue')
+    # (2) SetObjNames: guard, first and one-past-last .row index of the loop over the objectives' names
+    tu3 = os.path.join(work, 'objfilter_mm.cc')
+    open(tu3, 'w').write(TU_MM)
+    idx.add_docs(clang_dump(tu3, 'mp::ModelManagerWithProblemBuilder', [os.path.join(repo, 'include')]))
+    tr.abstract = set(ABSTRACT)
+    son = idx.method('ModelManagerWithProblemBuilder', 'SetObjNames')
+    top = [strip(x) for x in body_of(son).get('inner', [])]
+    if len(top) != 1 or top[0]['kind'] != 'IfStmt' or len(top[0]['inner']) != 2:
+        raise TranslateError('SetObjNames: expected a single guarded block')
+    guard, block = top[0]['inner'][0], strip(top[0]['inner'][1])
+    f = FnX(tr, son, 'SetObjNames_guard', 'ModelManagerWithProblemBuilder')
+    kind, e = f.expr(guard)
+    tr.order.append(('SetObjNames_guard', 'def SetObjNames_guard %s : Outcome Int :=\n  %s\n' % (
+        ' '.join('(%s : Int)' % p for p in f.extras), e if kind == 'm' else '(Outcome.ret %s)' % e), list(f.extras)))
+    sts = list(block.get('inner', []))
+    fi = [i for i, x in enumerate(sts) if strip(x)['kind'] == 'ForStmt']
+    if len(fi) != 1:
+        raise TranslateError('SetObjNames: expected exactly one loop')
+    loop = strip(sts[fi[0]])
+    pre = []
+    for x in sts[:fi[0]]:
+        x0 = strip(x)
+        if x0['kind'] == 'DeclStmt':
+            try:
+                cty(qual(x0['inner'][0]))
+            except TranslateError:
+                ini = [c for c in x0['inner'][0].get('inner', []) if isinstance(c, dict) and 'kind' in c]
+                if len(ini) == 1 and strip(ini[0])['kind'] == 'CXXConstructExpr' and not strip(ini[0]).get('inner'):
+                    continue                      # `std::vector<std::string> names_o;`
+                raise
+        pre.append(x)
+    linit, lcond, linc = loop['inner'][0], strip(loop['inner'][2]), strip(loop['inner'][3])
+    lvar = strip(linit)['inner'][0]
+    if not (lcond['kind'] == 'BinaryOperator' and lcond['opcode'] == '<' and strip_casts(lcond['inner'][0]).get('referencedDecl', {}).get('id') == lvar['id']
+            and linc['kind'] == 'UnaryOperator' and linc['opcode'] == '++' and strip_casts(linc['inner'][0]).get('referencedDecl', {}).get('id') == lvar['id']):
+        raise TranslateError('SetObjNames: loop is not `for (io = a; io < b; ++io)`')
+    for nm, build in (('SetObjNames_first', lambda f: f.stmts(pre + [linit], lambda: '(Outcome.ret %s)' % f.vars[lvar['id']])),
+                      ('SetObjNames_end', lambda f: f.stmts(pre, lambda: (lambda ke: ke[1] if ke[0] == 'm' else '(Outcome.ret %s)' % ke[1])(f.expr(lcond['inner'][1]))))):
+        f = FnX(tr, son, nm, 'ModelManagerWithProblemBuilder')
+        term = build(f)
+        tr.order.append((nm, 'def %s %s : Outcome Int :=\n  %s\n' % (nm, ' '.join('(%s : Int)' % p for p in f.extras), term), list(f.extras)))
+    skels.append(('skel_SetObjNames', skeleton(body_of(son))))
+    tr.abstract = set()
+    # (3) uses of the filter in the NL reader: ObjHandler::SkipExpr / OnLinearExpr (G segments), `case 'O'`, `case 'G'`
+    tu4 = os.path.join(work, 'objfilter_reader.cc')
+    open(tu4, 'w').write(TU_READER)
+    idx.add_docs(clang_dump(tu4, 'mp::internal::NLReader', [os.path.join(repo, 'include')]))
+    tr.virtuals = set(VIRTUALS)
+
+    def b_skip(d):
+        f = FnX(tr, d, 'ObjHandler_SkipExpr', 'ObjHandler')
+        text = f.translate()
+        return text, f.params
+    nspec = same_over_specs(tr, idx, 'ObjHandler', 'SkipExpr', 'ObjHandler_SkipExpr', b_skip)
+
+    def b_slot(d):
+        bind = FnX(tr, d, 'x', 'ObjHandler')
+        text, params = block_fn_with_params(tr, d, 'ObjHandler_OnLinearExpr_slot', 'ObjHandler', body_of(d).get('inner', []), ('arg', 'OnLinearObjExpr', 0))
+        return text, params
+    same_over_specs(tr, idx, 'ObjHandler', 'OnLinearExpr', 'ObjHandler_OnLinearExpr_slot', b_slot)
+    has_ptr_param = lambda d: any(c.get('kind') == 'ParmVarDecl' for c in d.get('inner', []))
+
+    def b_case(want, nm):
+        def b(d):
+            cs = case_of(d, 'O')
+            blk = strip(cs['inner'][1])
+            if blk['kind'] != 'CompoundStmt':
+                raise TranslateError("case 'O' is not a block")
+            return block_fn_with_params(tr, d, nm, 'NLReader', blk.get('inner', []), want)
+        return b
+    same_over_specs(tr, idx, 'NLReader', 'Read', 'caseO_guard', b_case(('cond',), 'caseO_guard'), pick=has_ptr_param)
+    same_over_specs(tr, idx, 'NLReader', 'Read', 'caseO_slot', b_case(('arg', 'OnObj', 0), 'caseO_slot'), pick=has_ptr_param)
+    reads = [d for d in idx.method('NLReader', 'Read', ctx_has='SolverNLHandlerImpl', ctx_not='VarBoundHandler') if has_ptr_param(d)]
+    sk_o = {tuple(skeleton(strip(case_of(d, 'O')['inner'][1]))) for d in reads}
+    sk_g = set()
+    for d in reads:
+        cg = strip(case_of(d, 'G')['inner'][1])
+        callee = strip(cg['inner'][0]) if cg.get('kind') == 'CXXMemberCallExpr' else {}
+        tgt = idx.by_id.get((d['_run'], callee.get('referencedMemberDecl')))
+        if callee.get('name') != 'ReadLinearExpr' or tgt is None:
+            raise TranslateError("case 'G' is not a call of ReadLinearExpr<...>()")
+        lh = find_nodes(tgt, lambda n: n.get('kind') == 'VarDecl' and n.get('name') == 'lh')
+        if len(lh) != 1:
+            raise TranslateError('ReadLinearExpr<>: no handler variable lh')
+        sk_g.add(("call ReadLinearExpr<%s>()" % lh[0]['type']['qualType'].rsplit('::', 1)[-1],) + tuple(skeleton(body_of(tgt))))
+    if len(sk_o) != 1 or len(sk_g) != 1:
+        raise TranslateError("case 'O' / case 'G' differ between reader specializations")
+    skels.append(('skel_NLReader_caseO', list(sk_o.pop())))
+    skels.append(('skel_NLReader_caseG', list(sk_g.pop())))
+    # (4) where the delivered objectives come from and the echo: step skeletons from the (uninstantiated) template bodies
+    tu5 = os.path.join(work, 'objfilter_flat.cc')
+    open(tu5, 'w').write(TU_FLAT)
+    for filt, nm, sel, must in (('ConvertStandardItems', 'skel_Flattener_objective_loop', 'Convert', None),
+                                ('PushObjectivesTo', 'skel_FlatModel_PushObjectivesTo', None, 'SetLinearObjective'),
+                                ('WriteSolFile', 'skel_WriteSolFile_objno', 'objno', None)):
+        docs = clang_dump(tu5, filt, [os.path.join(repo, 'include')])
+        for dd in docs:
+            prune_comments(dd)
+        bodies = [b for dd in docs for b in find_nodes(dd, lambda n: n.get('kind') in ('CXXMethodDecl', 'FunctionDecl') and n.get('name') == filt
+                                                        and any(c.get('kind') == 'CompoundStmt' for c in n.get('inner', [])))]
+        uniq = []
+        for b in bodies:
+            if not any(skeleton(body_of(b)) == skeleton(body_of(u)) for u in uniq):
+                uniq.append(b)
+        bodies = [b for b in uniq if must is None or any(must in t for t in skeleton(body_of(b)))]
+        if len(bodies) != 1:
+            raise TranslateError('%d different bodies of %s' % (len(bodies), filt))
+        steps = skeleton(body_of(bodies[0]))
+        if sel:
+            steps = [t for t in steps if sel in t and ('obj' in t.lower())]
+        if not steps:
+            raise TranslateError('%s: the step of interest was not found' % filt)
+        skels.append((nm, steps))
     o = ['/- GENERATED by translators/gen_objfilter.py from include/mp/nl-reader.h, solver-base.h, solver-io.h.',
          '   Do not edit: regenerated on every check run.  Parameters: p_* declared parameters, f_* fields of `this`',
          '   (or of the member object the call goes through), v_* results of virtual calls on `this`,',
